@@ -317,15 +317,18 @@ fn gen_member_val(rng: &mut Rng, depth: usize) -> Val {
 }
 
 pub fn gen_history(rng: &mut Rng, tier: Tier) -> History {
-    let nvals = 3 + rng.below(10) as u32;
+    // now and then a small document with a long life: more sections than object numbers (every
+    // update rewrites an existing object, cross-reference streams keep their number, no /Info)
+    let long_small = rng.chance(1, 25);
+    let nvals = if long_small { 3 } else { 3 + rng.below(10) as u32 };
     let max_revs = if tier == Tier::Quick { 4 } else { 8 };
-    let n_revs = 1 + rng.usize(max_revs);
+    let n_revs = if long_small { 10 + rng.usize(14) } else { 1 + rng.usize(max_revs) };
     let filters = [StmFilter::None, StmFilter::FlateStored, StmFilter::AsciiHex, StmFilter::Lzw, StmFilter::FlateStored];
     // swarm: which writer styles are enabled in this run
     let allow_stream = rng.chance(3, 4);
     let allow_classic = !allow_stream || rng.chance(3, 4);
     let allow_free = rng.chance(2, 3);
-    let allow_compressed = allow_stream && rng.chance(3, 4);
+    let allow_compressed = allow_stream && rng.chance(3, 4) && !long_small;
     let mut revs = vec![];
     let mut serial = 0i64;
     for ri in 0..n_revs {
@@ -368,13 +371,13 @@ pub fn gen_history(rng: &mut Rng, tier: Tier) -> History {
             xref_filter: *rng.pick(&filters),
             objstm_filter: *rng.pick(&filters),
             trailing_ws: rng.coin(),
-            two_objstms: rng.chance(1, 3),
-            move_root: ri > 0 && rng.chance(1, 6),
+            two_objstms: !long_small && rng.chance(1, 3),
+            move_root: !long_small && ri > 0 && rng.chance(1, 6),
             free_old_root: rng.chance(1, 2),
-            reuse_xref_num: rng.chance(1, 4),
+            reuse_xref_num: long_small || rng.chance(1, 4),
             stale_member: rng.chance(1, 5),
-            length_ref: if rng.chance(1, 3) { 1 + rng.below(2) as u8 } else { 0 },
-            info: rng.chance(1, 3),
+            length_ref: if !long_small && rng.chance(1, 3) { 1 + rng.below(2) as u8 } else { 0 },
+            info: !long_small && rng.chance(1, 3),
             xref_predictor: if rng.coin() { *rng.pick(&[12u8, 12, 10, 11, 13, 14, 15, 2]) } else { 0 },
         });
     }
